@@ -171,6 +171,12 @@ func (f *Frame) evalId(name string, env *Env) *Val {
 	if lx, ok := lets[name]; ok {
 		return f.evalC(lx, env)
 	}
+	if env.Loop != nil && env.Result == nil {
+		// inside a loop invariant a local variable may shadow a contract keyword (e.g. "result")
+		if v, ok := env.Loop.phis[name]; ok {
+			return v
+		}
+	}
 	switch name {
 	case "true":
 		return boolVal(True)
@@ -328,6 +334,10 @@ func (f *Frame) evalSel(e *CExpr, env *Env) *Val {
 		f.E.fail("no field %s in %s", e.Name, a.T)
 	case VScalar, VAddr:
 		addr := f.fieldAddrByName(a, e.Name)
+		if innerStruct(addr.T) && addr.Kind == AObj && addr.Path == "" {
+			// embedded struct by value in a heap object: a reference to the inner object
+			return &Val{K: VScalar, T: types.NewPointer(addr.T), X: addr.Obj, ByValue: true}
+		}
 		if isOpaqueStruct(addr.T) || isStructType(addr.T) {
 			// embedded struct by value: stay an address
 			return &Val{K: VAddr, T: types.NewPointer(addr.T), Addr: addr}
@@ -421,20 +431,16 @@ func (f *Frame) fieldAddrByName(v *Val, name string) *Addr {
 	if !ok {
 		f.E.fail("no field %s in %s", name, st)
 	}
-	cur := *base
+	cur := base
 	t := st
 	for _, i := range idx {
 		su := t.Underlying().(*types.Struct)
 		fd := su.Field(i)
-		if _, isPtr := t.Underlying().(*types.Pointer); isPtr {
-			f.E.fail("embedded pointer fields not supported in contracts")
-		}
-		cur.Path += "$" + fd.Name()
-		cur.T = fd.Type()
+		cur = f.fieldOf(cur, t, fd.Name(), fd.Type())
 		t = fd.Type()
 	}
 	_ = fld
-	return &cur
+	return cur
 }
 
 func (f *Frame) indexVal(a, i *Val, env *Env) *Val {
@@ -489,6 +495,16 @@ func (f *Frame) evalBin(e *CExpr, env *Env) *Val {
 	switch e.Op {
 	case "==", "!=":
 		var eq *Term
+		if a.K == VScalar && b.K == VScalar && a.ByValue && b.ByValue {
+			at := a.T.Underlying().(*types.Pointer).Elem()
+			av := f.load(&Addr{Kind: AObj, Obj: a.X, Key: "F$" + typeKey(at), T: at}, env.State)
+			bv := f.load(&Addr{Kind: AObj, Obj: b.X, Key: "F$" + typeKey(at), T: at}, env.State)
+			eq = f.valEq(av, bv, at)
+			if e.Op == "!=" {
+				eq = Not(eq)
+			}
+			return boolVal(eq)
+		}
 		if a.K == VAddr && b.K == VAddr && isStructType(a.Addr.T) && isStructType(b.Addr.T) && !isOpaqueStruct(a.Addr.T) && e.Op != "" && a.Addr.Kind == AObj {
 			// embedded struct values: compare by value
 			eq = f.valEq(f.load(a.Addr, env.State), f.load(b.Addr, env.State), a.Addr.T)
@@ -608,6 +624,40 @@ func (f *Frame) evalCall(e *CExpr, env *Env) *Val {
 		nenv := *env
 		nenv.State = env.Old
 		return f.evalC(e.Args[0], &nenv)
+	case "hasprefix", "hassuffix", "contains":
+		a, b := arg(0), arg(1)
+		if a.K != VScalar || a.X.S.K != SString {
+			f.E.fail("%s needs opaque strings", name)
+		}
+		op := map[string]string{"hasprefix": "str.prefixof", "hassuffix": "str.suffixof", "contains": "str.contains"}[name]
+		if name == "contains" {
+			return boolVal(App(op, BoolS, a.X, b.X))
+		}
+		return boolVal(App(op, BoolS, b.X, a.X))
+	case "fieldarr":
+		// fieldarr(pkg.Type.field): the heap array of a scalar field, in the current state
+		sel := e.Args[0]
+		if sel.K != "sel" {
+			f.E.fail("fieldarr(pkg.Type.field)")
+		}
+		n := f.E.P.Named[sel.A.String()]
+		if n == nil {
+			f.E.fail("fieldarr: unknown type %s", sel.A)
+		}
+		st := n.Underlying().(*types.Struct)
+		for i := 0; i < st.NumFields(); i++ {
+			if st.Field(i).Name() == sel.Name {
+				ls := leavesOf(st.Field(i).Type(), f.E.Mode)
+				if len(ls) != 1 {
+					f.E.fail("fieldarr: field %s is not scalar", sel.Name)
+				}
+				key := "F$" + typeKey(n) + "$" + sel.Name + ls[0].path
+				t := env.State.Get(key, ArrayS(IntS, ls[0].sort))
+				f.E.noteVars(t)
+				return &Val{K: VScalar, X: t}
+			}
+		}
+		f.E.fail("fieldarr: no field %s", sel.Name)
 	case "atloop":
 		// value of the expression in the heap state at the entry of the current loop
 		if env.Loop == nil || env.Loop.pre == nil {
@@ -710,6 +760,9 @@ func (f *Frame) evalCall(e *CExpr, env *Env) *Val {
 		return &Val{K: VBytes, T: types.Typ[types.String], Arr: Select(cur, a.Base), Off: a.Off, Len: a.Len}
 	case "fn":
 		key := e.Args[0].String()
+		if e.Args[0].K == "str" {
+			key = e.Args[0].Str
+		}
 		var args []*Val
 		for i := 1; i < len(e.Args); i++ {
 			args = append(args, arg(i))
